@@ -53,11 +53,16 @@ Fixpoint upto (n : nat) : list N :=
 Definition writer_table : list N := Eval vm_compute in map crc_entry_w (upto 256).
 Definition reader_table : list N := Eval vm_compute in map crc_entry_r (upto 256).
 
+(* truncation to uint8 / uint32 as a mask (the same function as Base.u8 / u32,
+   Proofs/Ogg.v m8_u8, m32_u32; the mask evaluates much faster than mod) *)
+Definition m8 (x : N) : N := N.land x 255.
+Definition m32 (x : N) : N := N.land x 4294967295.
+
 (* checksum = (checksum << 8) ^ table[byte(checksum>>24) ^ v]; the table is a
    [256]uint32 indexed by a byte *)
 Definition crc_update (table : list N) (crc : N) (v : N) : option N :=
-  match nth_error table (N.to_nat (N.lxor (u8 (N.shiftr crc 24)) (u8 v))) with
-  | Some e => Some (N.lxor (u32 (N.shiftl crc 8)) e)
+  match nth_error table (N.to_nat (N.lxor (m8 (N.shiftr crc 24)) (m8 v))) with
+  | Some e => Some (N.lxor (m32 (N.shiftl crc 8)) e)
   | None => None
   end.
 
